@@ -653,11 +653,11 @@ func c25HandlerPart(t *testing.T, rep *vh.Report, deadline time.Time) {
 func TestVerifC25(t *testing.T) {
 	rep := vh.New(t, "C25")
 	defer rep.Finish()
-	rep.Rule = "monitor part: case = one sample history (multiset of <=N samples in canonical order; up to 4 samples also in reversed order) on a fresh real S3HealthMonitor under a virtual clock, judged against every other history of the same threshold configuration (same in-window rate+latency => same rating; component-wise larger => rating not better); non-trivial = has in-window samples and (expired samples or a non-healthy rating). handler part: case = one history of <=D events on a fresh real handler, the last event judged; non-trivial = the judged event is a produce or fetch issued while the monitor rates S3 degraded/unavailable; signature = ratings along the history + reply codes/bytes. mid-request part: case = one produce (flush-on-ack) or fetch (freshly started broker) over 2-3 partitions of 1-2 topics on a fresh real handler with one assignment of {ok, fail, ok after the critical latency} to the S3 calls the request makes (all assignments, depth-first over the calls made), for 2 monitor configurations x {0,4} ok samples already in the window; each partition is judged against the broker's own rating read when it was handled (at its first S3 call; for a partition without S3 call at the next S3 call of the request or right after it); non-trivial = the rating was healthy before the request and a partition of it was handled under degraded/unavailable; signature = request shape, configuration, per-partition rating/code/data/number of S3 calls"
+	rep.Rule = "monitor part: case = one sample history (multiset of <=N samples in canonical order; up to 4 samples also in reversed order) on a fresh real S3HealthMonitor under a virtual clock, judged against every other history of the same threshold configuration (same in-window rate+latency => same rating; component-wise larger => rating not better); non-trivial = has in-window samples and (expired samples or a non-healthy rating). handler part: case = one history of <=D events on a fresh real handler, the last event judged; non-trivial = the judged event is a produce or fetch issued while the monitor rates S3 degraded/unavailable; signature = ratings along the history + reply codes/bytes. mid-request part: case = one produce (flush-on-ack) or fetch (freshly started broker) over 2-3 partitions of 1-2 topics on a fresh real handler with one assignment of {ok, fail, ok after the critical latency} to the S3 calls the request makes (all assignments, depth-first over the calls made), for 2 monitor configurations x {0,4} ok samples already in the window; each partition is judged against the broker's own rating read when it was handled (at its first S3 call; for a partition without S3 call at the next S3 call of the request or right after it); non-trivial = the rating was healthy before the request and a partition of it was handled under degraded/unavailable; signature = request shape, configuration, per-partition rating/code/data/number of S3 calls. sample-cap part: case = one in-window sample sequence longer than MaxSamples on a fresh real monitor vs its MaxSamples most recent samples on another fresh monitor; non-trivial = the dropped prefix alone is rated differently from the kept suffix"
 	rep.Assumptions = []string{
 		"virtual time (testing/synctest): no wall clock; S3 operations of the fake bucket take 0 virtual time",
 		"a sample exactly one window old is not exercised (ages are window-1ns and window+1ns); no in-window sample = error rate 0 and latency 0",
-		"MaxSamples is left at its default (512), above the history length",
+		"MaxSamples is left at its default (512), above the history length, in the monitor/handler/mid-request parts; the sample-cap part sets it to 1..3 (thorough 4) and demands that a history is rated like its MaxSamples most recent samples alone",
 		"retriable/backpressure codes are the two the broker documents: REQUEST_TIMED_OUT and UNKNOWN_SERVER_ERROR; acks=0 has no reply, only the absence of any write is demanded",
 		"in-memory metadata store and fake S3 bucket stand for etcd and S3",
 		"mid-request part: one request at a time; an S3 call takes 1-2ms of virtual time (slow: the critical latency) so that the two concurrent uploads of one flush start at the same instant and finish in a fixed order (index first); the rating a partition was handled under is read from the real monitor at the partition's first S3 call; for a partition that made no S3 call it is the rating at the next S3 call of the request or right after the request, which assumes the partitions are handled one after another in request order (only applied when the S3 calls seen came in that order)",
@@ -675,12 +675,15 @@ func TestVerifC25(t *testing.T) {
 	c25HandlerPart(t, rep, deadline)
 	c25MidRequestPart(t, rep, deadline)
 	c25MonitorPart(t, rep, deadline)
+	c25CapPart(t, rep, deadline)
 }
 
 func c25Replay(t *testing.T, rep *vh.Report, raw map[string]any) {
 	switch raw["part"] {
 	case "midrequest":
 		c25MidReplay(t, rep)
+	case "cap":
+		c25CapReplayRun(t, rep)
 	case "handler":
 		var r c25HandlerReplay
 		if _, err := vh.LoadReplay(&r); err != nil {
